@@ -41,6 +41,7 @@ class Contract:
         self.extended = g('extended', False)
         self.total = g('total', False)          # no exception allowed at all
         self.modifies = g('modifies', [])       # fields of self havocked by a call
+        self.updates = g('updates', {})         # {field of self: spec function of the PRE-state} (mutators)
         self.trusted = g('trusted', False)      # assumed at call sites, body not verified (listed)
         self.c03 = g('c03', False)              # also prove Truthful(result) (C03 construction site)
         self.slice_vars = g('slice_vars')       # mechanical statement slice (see slice_function)
@@ -113,6 +114,11 @@ def apply_contract(I, c, f, args, kwargs):
         slf = vals.get('self')
         if isinstance(slf, VObj):
             slf.fields[fld] = VOpaque('havoc:' + fld)
+    if c.updates:
+        slf = vals.get('self')
+        newvals = {fld: call_spec(I, fn, vals) for fld, fn in c.updates.items()}   # all from the pre-state
+        for fld, v in newvals.items():
+            slf.fields[fld] = v
     if c.returns is not None:
         return call_spec(I, c.returns, vals)
     if c.result_sort is None:
@@ -239,6 +245,12 @@ def _explore_function(I, c, tgt, mode, prop, short):
         if c.requires is not None:
             I.ex.assume(truthy(call_spec(I, c.requires, vals)))
         callvals = {k: v for k, v in vals.items() if k in c.params}
+        pre_vals = vals
+        if c.updates or c.ensures is not None:
+            slf = vals.get('self')
+            if isinstance(slf, VObj):
+                pre = VObj(slf.pycls, dict(slf.fields), slf.tag)
+                pre_vals = dict(vals, self=pre, old=pre)
         try:
             try:
                 res = I.call_def(f, [], callvals, force_body=True)
@@ -259,8 +271,11 @@ def _explore_function(I, c, tgt, mode, prop, short):
                     return outcome
                 I.ex.prove(f'{prop}:{short}:post', veq(res, exp), kind='post', exact=c.exact)
             if c.ensures is not None:
-                ok = call_spec(I, c.ensures, dict(vals, result=res))
+                ok = call_spec(I, c.ensures, dict(vals, result=res, old=pre_vals.get('old')))
                 I.ex.prove(f'{prop}:{short}:ensures', truthy(ok), kind='post', exact=c.exact)
+            for fld, fn in c.updates.items():
+                expv = call_spec(I, fn, pre_vals)      # spec over the PRE-state, evaluated on return paths only
+                I.ex.prove(f'{prop}:{short}:updates[{fld}]', veq(vals['self'].fields[fld], expv), kind='post', exact=c.exact)
             if c.c03:
                 from .vecmodel import is_vector
                 from contracts import specs as _specs
